@@ -84,16 +84,19 @@ arguments yields the same entries, in the same order -/
 theorem split_equiv (i₁ i₂ : List DeriveItem) (bound : Option (List BoundArg)) (dump : Bool) (rest : List Args) :
     Entry.ofArgsList ({ items := i₁ ++ i₂, bound, dump } :: rest) =
       Entry.ofArgsList ({ items := i₁, bound, dump } :: { items := i₂, bound, dump } :: rest) := by
-  simp only [Entry.ofArgsList, List.mapM_cons, Entry.ofArgs, mapM_append_R, bind, Except.bind, pure, Except.pure]
-  cases h1 : List.mapM (Entry.ofItem bound dump) i₁ with
-  | error _ => rfl
-  | ok a =>
-    cases h2 : List.mapM (Entry.ofItem bound dump) i₂ with
+  cases hb : boundOk bound with
+  | false => simp [Entry.ofArgsList, List.mapM_cons, Entry.ofArgs, hb, bail, bind, Except.bind]
+  | true =>
+    simp only [Entry.ofArgsList, List.mapM_cons, Entry.ofArgs, hb, if_true, mapM_append_R, bind, Except.bind, pure, Except.pure]
+    cases h1 : List.mapM (Entry.ofItem bound dump) i₁ with
     | error _ => rfl
-    | ok b =>
-      cases List.mapM Entry.ofArgs rest with
+    | ok a =>
+      cases h2 : List.mapM (Entry.ofItem bound dump) i₂ with
       | error _ => rfl
-      | ok c => simp [List.flatten_cons, List.append_assoc]
+      | ok b =>
+        cases List.mapM Entry.ofArgs rest with
+        | error _ => rfl
+        | ok c => simp [List.flatten_cons, List.append_assoc]
 
 /-- impls appear in the order the traits were listed -/
 theorem order_preserved (r : List (Entry × EntryOut)) :
